@@ -121,7 +121,33 @@ def c19_view_aliases_callers_list():
               "(numpy copies index lists when indexing)")
 
 
+def c11_marker_forged_by_deepcopy():
+    """A deep copy taken from inside an evaluation holds a copy of the in-flight marker and hands it out as a value."""
+    import copy
+
+    from pymablock.series import BlockSeries
+
+    snap = {}
+
+    def ev(k):
+        if k == 2 and "s" not in snap:
+            snap["s"] = copy.deepcopy(series)  # a callback that takes a snapshot of the series it is asked to evaluate
+        return ("value", int(k))
+
+    series = BlockSeries(eval=ev, shape=(), n_infinite=1)
+    series[2]
+    try:
+        got = snap["s"][2]
+    except RuntimeError:
+        return None  # an error, not a value: the marker is at least not handed out
+    if got == ("value", 2):
+        return None
+    return _v("C11/in-flight-marker-forged-by-deepcopy",
+              f"the snapshot taken while element 2 was being evaluated returns {got!r} for that element (the copied in-flight marker), without evaluating anything")
+
+
 WITNESSES = {
+    "C11/in-flight-marker-forged-by-deepcopy": c11_marker_forged_by_deepcopy,
     "C19/view-aliases-callers-index-list": c19_view_aliases_callers_list,
     "C19/packed-view-evaluates-siblings": c19_packed_view_siblings,
     "C18/one-plus-term": c18_one_plus_term,
